@@ -331,6 +331,43 @@ def _binary_chunk(params, lo, hi):
     return r
 
 
+PAIR_B = ((3, 1), (3, 0), (1, 3))
+PAIR_CFGS = (dict(lns_iterations=5, seed=0, warm_start=[0.0, 0.0, 0.0]), dict(lns_iterations=2, seed=1), dict(warm_start=[1.0, 0.0, 1.0], lns_iterations=3, seed=0))
+
+
+def _pair_chunk(params, lo, hi):
+    """ordered call pairs in one process: the 3-variable binary model with right-hand side b0 is solved, then the same
+    model with another right-hand side b0' under the same configuration (same seed, same warm start); the second answer
+    is judged on its own - it may not depend on what the first call computed.
+    index = (((a_code*64 + c_code)*|PAIR_B| + pair)*|PAIR_CFGS| + cfg)*2 + minimize"""
+    from solvor.milp import solve_milp
+
+    r = new_result()
+    for idx in range(lo, hi):
+        minimize = idx % 2 == 0
+        k = idx // 2
+        kw = PAIR_CFGS[k % len(PAIR_CFGS)]
+        k //= len(PAIR_CFGS)
+        b_first, b_second = PAIR_B[k % len(PAIR_B)]
+        k //= len(PAIR_B)
+        c = [C4[d] for d in digits(k % 64, 4, 3)]
+        a = [A4[d] for d in digits(k // 64, 4, 3)]
+        A = [[1, 0, 0], [0, 1, 0], [0, 0, 1], a]
+        ints = (0, 1, 2)
+        try:
+            gcall(lambda: solve_milp([float(v) for v in c], [[float(v) for v in row] for row in A], [1.0, 1.0, 1.0, float(b_first)], list(ints), minimize=minimize, **kw), 5.0, 50_000_000)
+        except Exception:  # noqa: BLE001 - the first call is judged where it is enumerated on its own
+            pass
+        b = [1, 1, 1, b_second]
+        errs, label, nt = judge(Geometry(A, b, 3), c, ints, minimize, kw)
+        wit = {"c": c, "A": A, "b": b, "integers": list(ints), "minimize": minimize, "config": kw, "first_call_b": [1, 1, 1, b_first]}
+        _rec(r, errs, "after-first:" + label, nt, wit, f"after solve_milp(.., b={[1, 1, 1, b_first]}, ..): solve_milp(c={c}, A={A}, b={b}, integers={list(ints)}, minimize={minimize}, {kw})")
+        if len(r["violations"]) >= 40 or too_many_hangs():
+            r["capped"] = True
+            break
+    return r
+
+
 def _pseudo_chunk(params, lo, hi):
     """x integer, y continuous; row 0 is [1, a1] <= 1 with a1 != 0 (looks like the bound x <= 1 if y is ignored);
     rows 1,2 general. index = ((((a1*16 + r1)*5 + b1)*16 + r2)*5 + b2)*16 + c)*2 + minimize"""
@@ -413,6 +450,7 @@ def jobs(tier, seed):
         js.append(Job(f"milp_{n}v{m}r", _size(n, m), _chunk, (n, m, 64 if tier == "quick" else 4), describe="all instances x integer subsets x min/max, heuristics on/off; every 16th (4th in thorough) instance x full configuration menu"))
     th = ((-3, 0, 2, 3), (-2, 1, 6, 7), (-3, -1, 2)) if tier == "quick" else ((-3, -1, 0, 2, 3), (-2, 0, 1, 6, 7), (-3, -1, 0, 2))
     js.append(Job("milp_2v2r_thirds", len(th[0]) ** 4 * len(th[1]) ** 2 * len(th[2]) ** 2 * 8, _alpha_chunk, th, describe=f"2 variables, 2 rows, A over {th[0]}, b over {th[1]}, c over {th[2]}, integer subsets, min/max, heuristics on/off: entries 3/-3 give node LPs with thirds (rounding residue)"))
+    js.append(Job("call_history_pairs", 64 * 64 * len(PAIR_B) * len(PAIR_CFGS) * 2, _pair_chunk, None, describe="the binary 3-variable model solved with one right-hand side, then with another under the same LNS seed / warm start; the second answer is judged on its own"))
     js.append(Job("binary3_one_row", 64 * 4 * 64 * 2, _binary_chunk, None, describe="3 variables with explicit x_j<=1 rows + one general row; all-integer and mixed; rounding heuristic, LNS seeds, limits, warm starts"))
     js.append(Job("binary3_two_rows", 64 * 4 * 64 * 2, _binary_chunk, ((1, 1, 1), 2), describe="same with an extra cardinality row x0+x1+x2<=2"))
     na = 3 if tier == "thorough" else 1
@@ -429,6 +467,13 @@ def replay(v):
     w = v["witness"]
     geo = Geometry(w["A"], w["b"], len(w["c"]))
     kw = dict(w["config"])
+    if w.get("first_call_b"):
+        from solvor.milp import solve_milp
+
+        try:
+            solve_milp([float(x) for x in w["c"]], [[float(x) for x in row] for row in w["A"]], [float(x) for x in w["first_call_b"]], list(w["integers"]), minimize=w["minimize"], **kw)
+        except Exception:  # noqa: BLE001
+            pass
     errs, _, _ = judge(geo, w["c"], tuple(w["integers"]), w["minimize"], kw)
     for kind, detail in errs:
         if kind == v["kind"]:
